@@ -42,8 +42,17 @@ Record scfg := mkScfg {
   s_server : bool;          (* the decoder is the server: peer frames must be masked *)
   s_compress : bool;        (* permessage-deflate negotiated *)
   s_limit : N;              (* maximum (compressed) message size, 0 = none *)
-  s_dlimit : N              (* maximum decompressed message size, 0 = none *)
+  s_dlimit : N;             (* maximum decompressed message size, 0 = none *)
+  s_avail : bytes -> N      (* decompressor progress (library): number of output bytes the inflater has
+                               produced when it has been given this prefix of a compressed message and
+                               asks for more input; only consulted when s_dlimit > 0 *)
 }.
+
+Definition no_avail : bytes -> N := fun _ => 0.
+
+(* the part of a compressed message received so far already inflates beyond the limit *)
+Definition dtrip (c : scfg) (compressed : bool) (data : bytes) : bool :=
+  compressed && (0 <? s_dlimit c) && (s_dlimit c <? s_avail c data).
 
 Record spolicy := mkPolicy {
   lax : vkind -> bool;      (* rules that are NOT enforced *)
@@ -119,7 +128,8 @@ Definition complete (P : spolicy) (c : scfg) (inflate : bytes -> option bytes) (
            (rest : bytes) : fres :=
   let finish (out : bytes) :=
       check P (if (typ =? 1) && negb (utf8_valid out) then [VTextUtf8] else []) (FCont [SMsg typ out] None rest) in
-  if compressed then
+  if dtrip c compressed data then FEnd [SEnd OTooBig]
+  else if compressed then
     match inflate data with
     | None => FEnd [SEnd OInflate]
     | Some out =>
@@ -164,10 +174,16 @@ Definition spec_data (P : spolicy) (c : scfg) (inflate : bytes -> option bytes) 
   if two63 <=? total then (if lax P VMsgLen63 then FEnd [SEnd (OSilent VMsgLen63)] else FEnd [SEnd (OViol VMsgLen63)])
   else if (0 <? s_limit c) && (s_limit c <? total) then FEnd [SEnd OTooBig]
   else
-    need len bs3 (fun pl bs4 =>
-      let data := acc ++ unmask c key pl in
-      if fin then complete P c inflate typ compressed data bs4
-      else FCont [] (Some (typ, compressed, data, total)) bs4).
+    match take_n len bs3 with
+    | None =>
+        (* the stream ends inside this frame: what has arrived may already be too big *)
+        if dtrip c compressed (acc ++ unmask c key bs3) then FEnd [SEnd OTooBig] else FEnd [SEnd OEof]
+    | Some (pl, bs4) =>
+        let data := acc ++ unmask c key pl in
+        if fin then complete P c inflate typ compressed data bs4
+        else if dtrip c compressed data then FEnd [SEnd OTooBig]
+        else FCont [] (Some (typ, compressed, data, total)) bs4
+    end.
 
 (* one frame *)
 Definition spec_frame (P : spolicy) (c : scfg) (inflate : bytes -> option bytes) (frag : option fragst) (bs : bytes) : fres :=
